@@ -35,6 +35,15 @@ class Bad(Exception):
         self.sig, self.what = sig, what
 
 
+def crash(prefix, rc, err):
+    """harness died: sanitizer report / assert / signal / timeout"""
+    err = err or ""
+    kind = "asan" if ("AddressSanitizer" in err or "LeakSanitizer" in err) else ("timeout" if rc == -999 else "abort")
+    ls = err.strip().splitlines()
+    k = next((i for i, x in enumerate(ls) if "ERROR:" in x or "Assertion" in x or "runtime error" in x), max(0, len(ls) - 10))
+    return Bad(f"{prefix}-{kind}", f"harness exited {rc}: " + " | ".join(x.strip() for x in ls[k:k + 9])[:1500])
+
+
 # ============================================================================= fs_poll: generation
 BASE = [5, 6, 7, 100, 101, 102, 10, 33188, 1000, 1000, 42, 3]
 
@@ -127,10 +136,8 @@ def pdiffer(a, b):
 def monitor_poll(case, rc, out, err):
     """Property text evaluated on the harness log.  Raises Bad(sig, what)."""
     lines = out.splitlines()
-    if rc != 0:
-        tail = (err or "").strip().splitlines()[-12:]
-        kind = "asan" if "AddressSanitizer" in err or "LeakSanitizer" in err else ("timeout" if rc == -999 else "abort")
-        raise Bad(f"fspoll-{kind}", f"harness exited {rc}: " + " | ".join(tail)[-1200:])
+    if rc != 0 and lines:
+        lines = lines[:-1]          # the last line may be cut
     cur = {}            # handle -> live context id
     sess = {}           # ctx -> dict(h, cb, path, iv, last, lastok, due)
     pending = {h: set() for h in range(NH)}     # contexts not yet retired (timer_close_cb not run)
@@ -283,6 +290,8 @@ def monitor_poll(case, rc, out, err):
                 raise Bad("fspoll-bad-op", f"line {ln}: generator produced an op the harness rejects")
             continue
         raise Bad("fspoll-unparsed", f"line {ln}: {l}")
+    if rc != 0:
+        raise crash("fspoll", rc, err)     # the log up to the crash shows no property violation by itself
     if not lines or not lines[-1].startswith("loopclose"):
         raise Bad("fspoll-truncated", "no loopclose line")
 
@@ -410,9 +419,7 @@ def monitor_event(case, rc, out, err):
 def monitor_event1(case, rc, out, err, use_optional):
     lines = out.splitlines()
     if rc != 0:
-        tail = (err or "").strip().splitlines()[-12:]
-        kind = "asan" if "AddressSanitizer" in err or "LeakSanitizer" in err else ("timeout" if rc == -999 else "abort")
-        raise Bad(f"fsevent-{kind}", f"harness exited {rc}: " + " | ".join(tail)[-1200:])
+        raise crash("fsevent", rc, err)
     watch = {h: None for h in range(NH)}
     aliases = {}                 # wd -> basenames used to start handles on it
     last_op = None
@@ -629,9 +636,7 @@ def gen_real_case(rng, nsteps):
 def monitor_real(case, rc, out, err):
     lines = out.splitlines()
     if rc != 0:
-        tail = (err or "").strip().splitlines()[-12:]
-        kind = "asan" if "AddressSanitizer" in err or "LeakSanitizer" in err else ("timeout" if rc == -999 else "abort")
-        raise Bad(f"fsevent-real-{kind}", f"harness exited {rc}: " + " | ".join(tail)[-1200:])
+        raise crash("fsevent-real", rc, err)
     watch = {h: None for h in range(NH)}
     orphan = set()
     stopped_since = set()
